@@ -137,9 +137,4 @@ def segLens (len : Pt → Pt → Rat) : List Pt → List Rat
   | a :: b :: t => len a b :: segLens len (b :: t)
   | _ => []
 
-/-- Segment lengths of the merged centre line given those of the parts: when the joint vertex is dropped
-    (`joined`) they are just concatenated, otherwise the gap segment `gap` lies between them. -/
-def mergeLens (joined : Bool) (ℓp ℓs : List Rat) (gap : Rat) : List Rat :=
-  if joined then ℓp ++ ℓs else ℓp ++ gap :: ℓs
-
 end CR.Arc
